@@ -5,6 +5,7 @@ mod args;
 mod crashimg;
 mod engines;
 mod indep;
+mod lin;
 mod model;
 mod mon;
 mod report;
@@ -29,6 +30,7 @@ fn main() {
         "fsm" => engines::fsm::run(&args),
         "model" => engines::model::run(&args),
         "crash" => engines::crash::run(&args),
+        "conc" => engines::conc::run(&args),
         "scratch" => engines::scratchpad::run(&args),
         other => {
             eprintln!("unknown engine {other}");
